@@ -29,6 +29,7 @@ type Conn struct {
 	rdl, wdl time.Time
 
 	nWdl         int // SetWriteDeadline calls
+	wExpired     int // SetWriteDeadline calls with a time that has already passed
 	rtimer       *time.Timer
 	wtimer       *time.Timer
 	nRead, nWrit int
@@ -287,16 +288,16 @@ func (c *Conn) Write(p []byte) (int, error) {
 func (c *Conn) write(n int, p []byte) (int, error) {
 	c.mu.Lock()
 	defer c.mu.Unlock()
-	if c.StallWritesFrom >= 0 && n >= c.StallWritesFrom {
-		for {
-			if c.closed {
-				return 0, io.ErrClosedPipe
-			}
-			if !c.wdl.IsZero() && !time.Now().Before(c.wdl) {
-				return 0, timeoutErr{}
-			}
-			c.cond.Wait()
+	// (a blocked write is woken by a write deadline that expires while it
+	// waits, however briefly that deadline stays in force - as on a socket)
+	for gen := c.wExpired; c.StallWritesFrom >= 0 && n >= c.StallWritesFrom; {
+		if c.closed {
+			return 0, io.ErrClosedPipe
 		}
+		if c.wExpired != gen || (!c.wdl.IsZero() && !time.Now().Before(c.wdl)) {
+			return 0, timeoutErr{}
+		}
+		c.cond.Wait()
 	}
 	if c.closed {
 		return 0, io.ErrClosedPipe
@@ -372,6 +373,9 @@ func (c *Conn) SetWriteDeadline(t time.Time) error {
 	defer c.mu.Unlock()
 	c.wdl = t
 	c.nWdl++
+	if !t.IsZero() && !time.Now().Before(t) {
+		c.wExpired++
+	}
 	if c.wtimer != nil {
 		c.wtimer.Stop()
 		c.wtimer = nil
@@ -385,6 +389,23 @@ func (c *Conn) SetWriteDeadline(t time.Time) error {
 	}
 	c.cond.Broadcast()
 	return nil
+}
+
+// StallFrom makes write number n and every later one block (the peer has
+// stopped reading) until a write deadline expires, the connection is closed
+// or Unstall is called.
+func (c *Conn) StallFrom(n int) {
+	c.mu.Lock()
+	c.StallWritesFrom = n
+	c.mu.Unlock()
+}
+
+// Unstall: the peer reads again; blocked writes complete.
+func (c *Conn) Unstall() {
+	c.mu.Lock()
+	c.StallWritesFrom = -1
+	c.mu.Unlock()
+	c.cond.Broadcast()
 }
 
 // FailWrites makes every later Write fail with err (a connection whose
